@@ -41,6 +41,8 @@ pub fn content(name: &str, version: u16) -> Option<Node> {
         "cased-names" => vec![stream("\u{3c9}a", 10, 0), stream("\u{3a9}b", 20, 0), stream("\u{e9}a", 30, 0), stream("\u{c9}b", 40, 0)],
         // more than 128 sectors in V3: two FAT sectors that both matter
         "two-fat" => vec![stream("big", 70_000, 5), stream("s", 100, 6)],
+        // names that fill the 64-byte name field completely (31 units + terminator)
+        "long-names" => vec![stream(&"n".repeat(31), 70, 2), storage(&"\u{e9}".repeat(31), vec![stream("x", 5, 3)])],
         "three-minis" => vec![stream("m1", 130, 0), stream("m2", 64, 0), stream("m3", 1, 0)],
         "nested" => vec![storage("d", vec![storage("e", vec![stream("f", 100, 9)]), stream("g", 5000, 0)]), stream("h", 3, 0)],
         "empty" => vec![],
@@ -52,9 +54,9 @@ pub fn content(name: &str, version: u16) -> Option<Node> {
     Some(root)
 }
 
-pub const CONTENTS: [&str; 9] = ["empty", "two-mini", "one-big", "three-mixed", "four-sizes", "four-names", "three-minis", "nested", "two-fat"];
+pub const CONTENTS: [&str; 10] = ["empty", "two-mini", "one-big", "three-mixed", "four-sizes", "four-names", "three-minis", "nested", "two-fat", "long-names"];
 /// Contents of the layout enumeration (C04): the above plus two whose sibling order hinges on case folding.
-pub const LAYOUT_CONTENTS: [&str; 11] = ["empty", "two-mini", "one-big", "three-mixed", "four-sizes", "four-names", "three-minis", "nested", "punct-names", "cased-names", "two-fat"];
+pub const LAYOUT_CONTENTS: [&str; 12] = ["empty", "two-mini", "one-big", "three-mixed", "four-sizes", "four-names", "three-minis", "nested", "punct-names", "cased-names", "two-fat", "long-names"];
 
 #[derive(Clone, Debug, Serialize, Deserialize)]
 pub struct LayoutCase {
